@@ -1,0 +1,150 @@
+//! Verification hook H7 (compiled only with `--cfg plonky2_verif`): read-only access to
+//! crate-private items for external conformance harnesses. Nothing here changes behaviour.
+#[cfg(not(feature = "std"))]
+use alloc::vec::Vec;
+use core::ops::Range;
+
+use crate::field::extension::Extendable;
+use crate::field::types::Field;
+use crate::fri::proof::FriInitialTreeProof;
+use crate::fri::structure::{FriInstanceInfo, FriOpenings};
+use crate::fri::verifier::PrecomputedReducedOpenings;
+use crate::fri::FriParams;
+use crate::gates::selectors::SelectorsInfo;
+use crate::hash::hash_types::RichField;
+use crate::hash::merkle_proofs::MerkleProof;
+use crate::plonk::circuit_data::CommonCircuitData;
+use crate::plonk::config::{GenericConfig, Hasher};
+pub use crate::plonk::vanishing_poly::{
+    check_lookup_constraints, evaluate_gate_constraints, evaluate_gate_constraints_base_batch,
+};
+use crate::plonk::vars::EvaluationVars;
+
+pub fn selector_indices(info: &SelectorsInfo) -> &[usize] {
+    &info.selector_indices
+}
+
+pub fn selector_groups(info: &SelectorsInfo) -> &[Range<usize>] {
+    &info.groups
+}
+
+pub fn eval_vanishing_poly<F: RichField + Extendable<D>, const D: usize>(
+    common_data: &CommonCircuitData<F, D>,
+    x: F::Extension,
+    vars: EvaluationVars<F, D>,
+    local_zs: &[F::Extension],
+    next_zs: &[F::Extension],
+    local_lookup_zs: &[F::Extension],
+    next_lookup_zs: &[F::Extension],
+    partial_products: &[F::Extension],
+    s_sigmas: &[F::Extension],
+    betas: &[F],
+    gammas: &[F],
+    alphas: &[F],
+    deltas: &[F],
+) -> Vec<F::Extension> {
+    crate::plonk::vanishing_poly::eval_vanishing_poly(
+        common_data,
+        x,
+        vars,
+        local_zs,
+        next_zs,
+        local_lookup_zs,
+        next_lookup_zs,
+        partial_products,
+        s_sigmas,
+        betas,
+        gammas,
+        alphas,
+        deltas,
+    )
+}
+
+pub fn compress_merkle_proofs<F: RichField, H: Hasher<F>>(
+    cap_height: usize,
+    indices: &[usize],
+    proofs: &[MerkleProof<F, H>],
+) -> Vec<MerkleProof<F, H>> {
+    crate::hash::path_compression::compress_merkle_proofs(cap_height, indices, proofs)
+}
+
+pub fn decompress_merkle_proofs<F: RichField, H: Hasher<F>>(
+    leaves_data: &[Vec<F>],
+    leaves_indices: &[usize],
+    compressed_proofs: &[MerkleProof<F, H>],
+    height: usize,
+    cap_height: usize,
+) -> Vec<MerkleProof<F, H>> {
+    crate::hash::path_compression::decompress_merkle_proofs(
+        leaves_data,
+        leaves_indices,
+        compressed_proofs,
+        height,
+        cap_height,
+    )
+}
+
+pub fn compute_evaluation<F: Field + Extendable<D>, const D: usize>(
+    x: F,
+    x_index_within_coset: usize,
+    arity_bits: usize,
+    evals: &[F::Extension],
+    beta: F::Extension,
+) -> F::Extension {
+    crate::fri::verifier::compute_evaluation(x, x_index_within_coset, arity_bits, evals, beta)
+}
+
+pub fn fri_combine_initial<
+    F: RichField + Extendable<D>,
+    C: GenericConfig<D, F = F>,
+    const D: usize,
+>(
+    instance: &FriInstanceInfo<F, D>,
+    proof: &FriInitialTreeProof<F, C::Hasher>,
+    alpha: F::Extension,
+    subgroup_x: F,
+    openings: &FriOpenings<F, D>,
+    params: &FriParams,
+) -> F::Extension {
+    let pre = PrecomputedReducedOpenings::from_os_and_alpha(openings, alpha);
+    crate::fri::verifier::fri_combine_initial::<F, C, D>(
+        instance, proof, alpha, subgroup_x, &pre, params,
+    )
+}
+
+pub fn get_fri_instance<F: RichField + Extendable<D>, const D: usize>(
+    common_data: &CommonCircuitData<F, D>,
+    zeta: F::Extension,
+) -> FriInstanceInfo<F, D> {
+    common_data.get_fri_instance(zeta)
+}
+
+pub fn quotient_chunk_products<F: Field>(quotient_values: &[F], max_degree: usize) -> Vec<F> {
+    crate::util::partial_products::quotient_chunk_products(quotient_values, max_degree)
+}
+
+pub fn partial_products_and_z_gx<F: Field>(z_x: F, quotient_chunk_products: &[F]) -> Vec<F> {
+    crate::util::partial_products::partial_products_and_z_gx(z_x, quotient_chunk_products)
+}
+
+pub fn num_partial_products(n: usize, max_degree: usize) -> usize {
+    crate::util::partial_products::num_partial_products(n, max_degree)
+}
+
+pub fn check_partial_products<F: Field>(
+    numerators: &[F],
+    denominators: &[F],
+    partials: &[F],
+    z_x: F,
+    z_gx: F,
+    max_degree: usize,
+) -> Vec<F> {
+    crate::util::partial_products::check_partial_products(
+        numerators,
+        denominators,
+        partials,
+        z_x,
+        z_gx,
+        max_degree,
+    )
+}
